@@ -99,7 +99,7 @@ KNOWN_ATTRS = {
     'PythonExpression': {'source_code', 'program_id'},
     'Apply': {'expr1', 'expr2', 'apply_left', 'program_id'},
     'Where': {'expr', 'predicate', 'program_id'},
-    'Let': {'name', 'expr', 'body', 'program_id'},
+    'Let': {'name', 'expr', 'body', 'shadows', 'program_id'},
     'Call': {'func', 'args', 'program_id'},
     'OperatorTable': {'operand_str', 'row_strs', 'prefixes', 'operands', 'postfixes', 'infixes', 'num_blocks', 'program_id'},
     'Rule': {'name', 'params', 'expr', 'is_ignored', 'is_omitted', 'program_id'},
@@ -183,7 +183,7 @@ class Exporter:
         if n == 'Where':
             return ['Where', self.ex(e.expr, acc), self.ex(e.predicate, acc)]
         if n == 'Let':
-            return ['Let', N.nm(e.name), self.ex(e.expr, acc), self.ex(e.body, acc)]
+            return ['Let', N.nm(e.name), bool(e.shadows), self.ex(e.expr, acc), self.ex(e.body, acc)]
         if n == 'OperatorTable':
             o = lambda x: 'none' if x is None else self.ex(x, acc)
             pre = o(e.prefixes)
